@@ -297,6 +297,7 @@ type BlockOpts struct {
 	ViewFrom     *Node  // build on an INVALID parent: take the coins from this (valid) ancestor's view
 	Fat          int    // >0: the coinbase gets an extra zero-value output with a script of this many bytes
 	FatN         int    // that many more of them
+	PreferHeight uint32 // != 0: the first transaction spends an output created (by a transaction, not a coinbase) at this height, if the view has one
 }
 
 // C04Violations is the catalogue of contextual violations Build knows.
@@ -364,6 +365,18 @@ func (m *Miner) Build(parent *Node, o BlockOpts) (b *Block, ok bool) {
 			}
 			if len(wr) >= 4 {
 				av, k = wr, 4+m.R.Intn(3)
+			}
+		}
+		if o.PreferHeight != 0 && n == 0 {
+			// the first transaction spends (only) outputs created at that height, if there are any
+			var pr []CoinRef
+			for _, c := range av {
+				if c.Coin.Height == o.PreferHeight && !c.Coin.Coinbase {
+					pr = append(pr, c)
+				}
+			}
+			if len(pr) > 0 {
+				av, k = pr, 1
 			}
 		}
 		ins, _ := pick(av, k)
